@@ -90,7 +90,9 @@ fn classify(f: &syn::ImplItemFn, generics: &[String]) -> (String, String) {
             {
                 return (callee, "deref".into());
             }
-            if args != want_self && args != want_deref {
+            // a reborrow of `self` (`&*self`, `&mut *self`) names the same receiver as `self` / `*self`
+            let reborrow = (first == "&*self" || first == "&mut*self") && args[1..] == params[..];
+            if args != want_self && args != want_deref && !reborrow {
                 return (callee, "other".into());
             }
             if p.qself.is_some() {
